@@ -61,6 +61,19 @@ def replay_case(case):
         D2 = ModelSpec(formula=F).differentiate(*case["wrt"]).formula
         if _terms(D2) != case["d"]:
             bad.append({"formula": s, "wrt": case["wrt"], "why": "ModelSpec.differentiate-differs", "observed": _terms(D2), "expected": case["d"]})
+        # compositionality (a theorem of MC_Calculus): differentiating successively is differentiating with respect to the tuple;
+        # the intermediate formula holds repeated terms (several 0s), and a formula is a list: term i of the result belongs to term i
+        if len(case["wrt"]) == 2:
+            step = F.differentiate(case["wrt"][0]).differentiate(case["wrt"][1])
+            if _terms(step) != case["d"]:
+                bad.append({"formula": s, "wrt": case["wrt"], "why": "successive-differentiation-differs", "observed": _terms(step), "expected": case["d"]})
+        if case["wrt"] and len(F) >= 2:
+            from formulaic.formula import SimpleFormula
+
+            dup = SimpleFormula(list(F) + [F[0], F[len(F) - 1]], _ordering="none").differentiate(*case["wrt"])
+            if _terms(dup) != case["d"] + [case["d"][0], case["d"][-1]]:
+                bad.append({"formula": s + " (+ first and last term repeated)", "wrt": case["wrt"], "why": "derivative-of-a-formula-with-repeated-terms-differs",
+                            "observed": _terms(dup), "expected": case["d"] + [case["d"][0], case["d"][-1]]})
         if not bad and int(jhash([case["terms"], case["wrt"], case["icpt"]])[:6], 16) % MATERIALISE_MOD == 0:
             df = _frame()
             for i, t in enumerate(D):
